@@ -138,7 +138,7 @@ func (m *vCtlMon) handlers() *verifHandlers {
 				if base, _ := m.plantIn.Load().(string); base != "" {
 					m.plantIn.Store("")
 					today := time.Now().Format("20060102")
-					runs, _ := os.ReadDir(filepath.Join(strings.TrimPrefix(base, "full:"), today))
+					runs, _ := os.ReadDir(filepath.Join(strings.TrimPrefix(strings.TrimPrefix(base, "full:"), "exttrig:"), today))
 					newest := ""
 					for _, rd := range runs {
 						if rd.IsDir() && len(rd.Name()) == 4 && rd.Name() > newest {
@@ -147,7 +147,13 @@ func (m *vCtlMon) handlers() *verifHandlers {
 					}
 					if newest != "" {
 						target := filepath.Join(base, today, newest, fmt.Sprintf("%s_run%s_experiment_state.txt", today, newest))
-						if strings.HasPrefix(base, "full:") {
+						if strings.HasPrefix(base, "exttrig:") {
+							// the external-trigger file of this run cannot be created
+							target = filepath.Join(base[8:], today, newest, fmt.Sprintf("%s_run%s_external_trigger.bin", today, newest))
+							if os.MkdirAll(target, 0o755) == nil {
+								atomic.AddInt64(&m.planted, 1)
+							}
+						} else if strings.HasPrefix(base, "full:") {
 							// the file can be created but every write to it fails (a full disk)
 							target = filepath.Join(base[5:], today, newest, fmt.Sprintf("%s_run%s_experiment_state.txt", today, newest))
 							if os.Symlink("/dev/full", target) == nil {
@@ -229,6 +235,7 @@ type vCtl struct {
 	archiving  bool // a raw-data request may still be pending
 	lenUnknown bool // a refused length change may have been applied to some channels: shapes are no longer predictable
 	stateFull  bool // writes to the current run's experiment-state file fail: label requests may be refused
+	forceExtTrig bool // the next eligible START of this session gets the external-trigger-file fault
 	emtOn      bool // an edge-multi request was accepted: validity of record lengths now also depends on its parameters
 	hist       []string
 	dead       bool
@@ -615,6 +622,14 @@ func (k *vCtl) reqWriteControl() {
 				fault = " [experiment-state file uncreatable]"
 				want = "err"
 				k.c.Cov("io_fault_state_file", 1)
+			} else if k.kind == "lancero" && (vChance(r, 0.12) || k.forceExtTrig) {
+				k.forceExtTrig = false
+				// single I/O fault: the external-trigger file of this run cannot be created (only the TDM source
+				// delivers external triggers). The file is created by block processing, not by the request.
+				k.mon.plantIn.Store("exttrig:" + k.dir)
+				fault = " [external-trigger file uncreatable]"
+				k.c.Note("fault:external-trigger-file-uncreatable")
+				k.c.Cov("io_fault_exttrig_file", 1)
 			} else if vChance(r, 0.12) {
 				// single I/O fault: every write to the experiment-state file of this run fails (disk full)
 				k.mon.plantIn.Store("full:" + k.dir)
@@ -964,6 +979,7 @@ func vRunControl(c *vCase) {
 	sc, stopHB := vNewInPackageControl()
 	defer close(stopHB)
 	k := &vCtl{c: c, sc: sc, mon: mon, kind: kind, dir: filepath.Join(c.Dir, "out")}
+	k.forceExtTrig = kind == "lancero" && c.Idx%12 == 2
 	os.MkdirAll(k.dir, 0o755)
 	c.Describe("source=%s seed=%d idx=%d", kind, c.Seed, c.Idx)
 	r := c.R
@@ -1155,7 +1171,7 @@ func init() {
 		},
 		Run: vRunControl,
 		Meta: vMeta{Level: "exploration",
-			Rule: "case = one client session against an in-package SourceControl: 1-3 requests with no source, Start of Triangle / scripted Lancero card / ErroringSource / a self-ending source (error block or closed channel at a scripted request index, requests continuing at once or after it settled), then 12-30 requests drawn from every queued request type with valid and invalid arguments (negative, too large, empty, nil and 2^40 channel indices, invalid pulse lengths, malformed/truncated/empty/wrong-shape matrices, every write-control string with all file-type subsets, empty/huge labels and comments, coupling on sources without it, mix lists of unequal length, raw-block sizes 0/negative/2^50, pixel maps that do not cover the channel numbers) and single I/O faults (output base path is a file, comment.txt uncreatable, experiment-state file uncreatable); 15 % of the requests are issued while the hook holds a block inside ProcessSegments. Monitors: reply class vs. model, effect/ProcessSegments span overlap, >=2 further blocks processed after each reply, every call returns (wait-state analysis), process crash = violation of the journaled case; non-trivial = session completed",
+			Rule: "case = one client session against an in-package SourceControl: 1-3 requests with no source, Start of Triangle / scripted Lancero card / ErroringSource / a self-ending source (error block or closed channel at a scripted request index, requests continuing at once or after it settled), then 12-30 requests drawn from every queued request type with valid and invalid arguments (negative, too large, empty, nil and 2^40 channel indices, invalid pulse lengths, malformed/truncated/empty/wrong-shape matrices, every write-control string with all file-type subsets, empty/huge labels and comments, coupling on sources without it, mix lists of unequal length, raw-block sizes 0/negative/2^50, pixel maps that do not cover the channel numbers) and single I/O faults (output base path is a file, comment.txt uncreatable, experiment-state file uncreatable or on a full disk, external-trigger file uncreatable); 15 % of the requests are issued while the hook holds a block inside ProcessSegments. Monitors: reply class vs. model, effect/ProcessSegments span overlap, >=2 further blocks processed after each reply, every call returns (wait-state analysis), process crash = violation of the journaled case; non-trivial = session completed",
 			Assumptions: []string{"single client (one goroutine issuing requests)", "the fire-and-forget mode of SetExperimentStateLabel is excluded as the property says", "where the statement does not fix the reply (raw-block size 0, deleting a connection that cannot exist, reading a comment after self-termination) either reply is accepted",
 				"hangs are decided by wait-state analysis of two goroutine dumps 2 s apart after a 15 s watchdog, never by the clock alone"},
 			Guards: map[string]map[string]int{
